@@ -6,6 +6,7 @@
 
 #include <string_theory/string>
 #include <functional>
+#include <filesystem>
 #include <map>
 #include <unordered_map>
 #include <climits>
@@ -211,6 +212,9 @@ static void op_view(const Bytes &s, size_t start, unsigned long long len, bool a
         g.run("copy", "string u8_str()..+size()", [&] { return lst((const char *)ss.u8_str(), ss.size()); });
         g.run("copy", "string.to_std_u8string()", [&] { std::u8string c; ss.to_std_string(c); return lst((const char *)c.data(), c.size()); });
 #endif
+        g.run("copy", "string.to_path().string()", [&] { auto c = ss.to_path().string(); return lst(c.data(), c.size()); });
+        g.run("copy", "string::from_path(path)", [&] { auto c = string::from_path(std::filesystem::path(std::string(s))); return lst(c.c_str(), c.size()); });
+        g.run("copy", "string(path)", [&] { std::filesystem::path pp{std::string(s)}; string c(pp); return lst(c.c_str(), c.size()); });
         g.run("term", "string c_str()[size()]", [&] { return jint((unsigned char)ss.c_str()[ss.size()]); });
     }
     view_forms<char>(g, "char_buffer", s, start, len, autolen);
